@@ -22,7 +22,7 @@ from vf.ref.pyref import RefServer
 
 PROP = "C04"
 LEVEL = "exploration"
-ANCHORS = ["agents/nodes/imports.py"]
+ANCHORS = ["agents/nodes/imports.py", "expressions.py"]
 RULE = ("generated acyclic packages (3-8 modules) + appended reference sites: per module ~6 module-level sites, ~5 "
         "class-level sites in a class whose members shadow globals/imports, ~3 sites in a nested class; site kinds: "
         "annotation, value, base class, decorator, parameter annotation, parameter default, return annotation; reference "
